@@ -46,6 +46,13 @@ for c in checks:
 base["engines"] = [{"name": e, "path": "engines/ + tla/ (see DESIGN.md section 4)", "serves_properties": ps,
                     "kind_free_text": "TLA+ specification checked by TLC, bound to /repo by recorded-call / trace validation"}
                    for e, ps in sorted(engines.items())]
+# X-series: specification coverage beyond the listed properties (ext.d/X*.json; run with ./check Xnn);
+# they are not claims about listed properties, so they appear only in the engines list.
+for p in sorted(glob.glob(os.path.join(V, "ext.d", "X*.json"))):
+    x = json.load(open(p))
+    base["engines"].append({"name": "%s %s" % (x["id"], x["title"]), "path": "engines/%s.py; ./check %s [--tier thorough]; evidence/ext/%s.json" % (x["id"].lower(), x["id"], x["id"]),
+                            "serves_properties": x.get("related_properties", []),
+                            "kind_free_text": "extension beyond the listed properties: " + x["statement"] + " -- " + x.get("technique", "")})
 json.dump(base, open(os.path.join(V, "MANIFEST.json"), "w"), indent=1)
 print("MANIFEST.json: %d checks, %d not_applicable" % (len(checks), len(na_out)))
 try:
